@@ -219,6 +219,14 @@ def check_imgvec(o):
         bad.append((tag + ": from_vector changed the class", {}, None))
     if not np.array_equal(r2.as_vector(), keep):
         bad.append((tag + ": from_vector(v).as_vector() != v", {}, None))
+    if c["cls"] != "BooleanImage":
+        # a vector of ANOTHER dtype than the image's pixels (fractional and negative values) must come back unchanged too
+        wf = np.linspace(-2.5, 300.75, want.shape[0])
+        r4 = img.from_vector(wf.copy())
+        back = r4.as_vector()
+        if back.shape != wf.shape or not np.array_equal(back, wf):
+            bad.append((tag + ": from_vector(v).as_vector() != v for a float64 vector with fractional / negative values "
+                              "(image pixels are %s)" % c["dtype"], {"first": back[:4], "want": wf[:4]}, None))
     if c["nlm"] > 0 and (not r2.has_landmarks or list(r2.landmarks.group_labels) != list(img.landmarks.group_labels)
                          or any(not np.array_equal(r2.landmarks[g].points, img.landmarks[g].points) for g in img.landmarks.group_labels)):
         bad.append((tag + ": from_vector drops or changes the landmarks", {}, None))
